@@ -489,3 +489,173 @@ def string_literals(fn, include_promoted=True):
         for p in fn.d.get("promoted", []):
             scan_body(p["blocks"])
     return out
+
+
+def conditional_guard(fn, cond_type_pred, guard_pats, passing_value, target_blocks, extra_transparent=()):
+    """R-GUARD, conditional form.
+
+    `cond_type_pred(ty)` selects the locals holding the looked-up value L (e.g. Option<Ident>).
+    Assume L is Some on every discriminant / is_some test of such a local (the other edges are
+    removed: paths mixing Some and None on the same looked-up value are infeasible).  A guard is a
+    call matching `guard_pats` whose receiver derives from L; its boolean result must equal
+    `passing_value` to pass.  Verdict 'violated' if a target is reachable from entry without
+    crossing a passing guard edge.
+
+    Returns (verdict, info)."""
+    C = {l for l, ty in enumerate(fn.locals) if cond_type_pred(ty)}
+    if not C:
+        return "undecided", {"reason": "no local of the looked-up type"}
+    removed = set()
+    n_some = 0
+
+    def place_ty(pl):
+        ty = fn.locals[pl["l"]]
+        for e in pl.get("p", []):
+            if e[0] == "field":
+                ty = e[3] if len(e) > 3 else ""
+            elif e[0] == "deref":
+                ty = ty.lstrip("&").strip()
+                if ty.startswith("mut "):
+                    ty = ty[4:]
+        return ty
+    # discriminant tests
+    for bi, blk in enumerate(fn.blocks):
+        t = blk["t"]
+        if t["k"] != "switch":
+            continue
+        dl = op_local(t["discr"])
+        if dl is None:
+            continue
+        for s in blk["s"]:
+            if "d" in s and s["d"]["l"] == dl and not s["d"].get("p") and "discr" in s["rv"]:
+                pl = s["rv"]["discr"]
+                pty = place_ty(pl)
+                if pl["l"] in C and pty.startswith("core::option::Option<") and cond_type_pred(pty) and "(" not in pty.split("<", 1)[0]:
+                    some_t = dict(t["targets"]).get("1", t["otherwise"])
+                    n_some += 1
+                    for tg in set(x[1] for x in t["targets"]) | {t["otherwise"]}:
+                        if tg != some_t:
+                            removed.add((bi, tg))
+    # is_some / is_none tests
+    seeds_true = []
+    seeds_false = []
+    for c in fn.calls():
+        if c.args and op_local(c.args[0]) is not None and (set(chain_locals(fn, op_local(c.args[0]))) & C):
+            if c.matches("core::option::Option::is_some"):
+                seeds_true.append(c.dst["l"])
+            elif c.matches("core::option::Option::is_none"):
+                seeds_false.append(c.dst["l"])
+    for seeds, val in ((seeds_true, True), (seeds_false, False)):
+        if not seeds:
+            continue
+        der = fn.derived(seeds)
+        for bb, t_t, f_t, pol in bool_switches(fn, der):
+            if pol is None:
+                continue
+            n_some += 1
+            # the test's value is `val` (xor polarity)
+            truth = val if pol else (not val)
+            removed.add((bb, f_t if truth else t_t))
+    # guards
+    transparent = set(TRANSPARENT) | {"core::option::Option::unwrap", "core::option::Option::expect", TRY_BRANCH} | set(extra_transparent)
+    guard_seeds = []
+    for c in fn.calls():
+        if not c.matches(tuple(guard_pats)) or not c.args:
+            continue
+        l = op_local(c.args[0])
+        if l is None:
+            continue
+        tp = trace_locals(fn, l, transparent)
+        if tp & C:
+            guard_seeds.append(c)
+    if not guard_seeds:
+        reach = fn.reachable(0, removed_edges=removed)
+        bad = [b for b in target_blocks if b in reach]
+        return ("violated" if bad and n_some else "undecided"), {"reason": "no guard call on the looked-up value", "some_tests": n_some}
+    der = fn.derived([c.dst["l"] for c in guard_seeds])
+    n_guard = 0
+    for bb, t_t, f_t, pol in bool_switches(fn, der):
+        if pol is None:
+            continue
+        n_guard += 1
+        value_on_true = pol      # switch true edge <=> guard result == pol
+        passing = t_t if value_on_true == passing_value else f_t
+        removed.add((bb, passing))
+    # repeated evaluations of the same pure test (e.g. `x.idents.len() == 1` written twice) take the same value:
+    # enumerate consistent valuations instead of mixing their edges
+    groups = correlated_tests(fn)
+    import itertools
+    bad = None
+    combos = list(itertools.product((True, False), repeat=len(groups))) if len(groups) <= 4 else [()]
+    for combo in combos:
+        extra = set()
+        for val, grp in zip(combo, groups):
+            for (bb, t_t, f_t) in grp:
+                extra.add((bb, f_t if val else t_t))
+        reach = fn.reachable(0, removed_edges=removed | extra)
+        b = [x for x in target_blocks if x in reach]
+        if b:
+            bad = b
+            break
+    bad = bad or []
+    info = {"some_tests": n_some, "guards": [c.bb for c in guard_seeds], "guard_switches": n_guard, "unguarded_targets": bad,
+            "correlated_test_groups": len(groups)}
+    if not n_some:
+        return "undecided", info
+    return ("violated" if bad else "ok"), info
+
+
+def correlated_tests(fn):
+    """Groups of bool switches whose condition is `f(recv) == const` for the same pure f, receiver path and constant."""
+    sig = {}
+    by_dst = {}
+    for c in fn.calls():
+        by_dst.setdefault(c.dst["l"], []).append(c)
+    for bi, blk in enumerate(fn.blocks):
+        t = blk["t"]
+        if t["k"] != "switch" or t.get("dty") != "bool":
+            continue
+        dl = op_local(t["discr"])
+        f_t = dict(t["targets"]).get("0")
+        if dl is None or f_t is None:
+            continue
+        for d in defs_of(fn, dl):
+            if d[0] != "assign" or "bin" not in d[4] or d[4]["bin"] != "Eq":
+                continue
+            rv = d[4]
+            k = op_const(rv["r"]) or op_const(rv["l"])
+            o = op_local(rv["l"]) if op_const(rv["r"]) else op_local(rv["r"])
+            if k is None or "int" not in k or o is None:
+                continue
+            cs = by_dst.get(o, [])
+            if len(cs) != 1 or not cs[0].matches(("core::slice::<impl [T]>::len", "alloc::vec::Vec::len")) or not cs[0].args:
+                continue
+            recv = frozenset(trace_paths(fn, op_local(cs[0].args[0]))) if op_local(cs[0].args[0]) is not None else frozenset()
+            sig.setdefault((mir.strip_generics(cs[0].callee()), recv, k["int"]), []).append((bi, t["otherwise"], f_t))
+    return [g for g in sig.values() if len(g) >= 2]
+
+
+def trace_locals(fn, local, transparent=TRANSPARENT, _seen=None, _depth=0):
+    """All locals on the backward copy/borrow/transparent-call chains of `local` (multi-definition aware)."""
+    if _seen is None:
+        _seen = set()
+    if local in _seen or _depth > 30:
+        return _seen
+    _seen.add(local)
+    for d in defs_of(fn, local):
+        if d[0] == "call":
+            c = d[4]
+            if c.matches(tuple(transparent)) and c.args and op_local(c.args[0]) is not None:
+                trace_locals(fn, op_local(c.args[0]), transparent, _seen, _depth + 1)
+        else:
+            rv = d[4]
+            pl = rv.get("ref") or rv.get("rawptr") or (op_place(rv["use"]) if "use" in rv else None) or (op_place(rv["op"]) if "cast" in rv else None)
+            if pl is not None:
+                trace_locals(fn, pl["l"], transparent, _seen, _depth + 1)
+    return _seen
+
+
+def ok_return_blocks(fn):
+    """Blocks that assign `_0 = Ok(..)`."""
+    return sorted({bi for bi, si, dst, rv, s in fn.assigns()
+                   if dst["l"] == 0 and not dst.get("p") and "agg" in rv and rv["agg"].get("v") == "Ok"})
